@@ -215,4 +215,32 @@ Section Generic.
     unfold ret in H. inversion H; subst.
     exists d, s2, s3, l5. split; [exact Hd|]. unfold accepts. now rewrite Hin.
   Qed.
+
+  (** ** generic inversion / computation lemmas for the monad *)
+  Lemma bind_err {A B} (m : M A) (f : A -> M B) s c ee s' l :
+    bind S m f s = (Err c ee, s', l) ->
+    m s = (Err c ee, s', l) \/
+    exists a s1 l1 l2, m s = (Ok a, s1, l1) /\ f a s1 = (Err c ee, s', l2) /\ l = l1 ++ l2.
+  Proof.
+    unfold bind. destruct (m s) as [[[a|c0 ee0] s1] l1].
+    - destruct (f a s1) as [[r s2] l2] eqn:E. intros H. inversion H; subst.
+      right. exists a, s1, l1, l2. auto.
+    - intros H. left. inversion H; subst. reflexivity.
+  Qed.
+
+  Lemma bind_of_ok {A B} (m : M A) (f : A -> M B) s a s1 l1 :
+    m s = (Ok a, s1, l1) ->
+    bind S m f s = (let '(r, s2, l2) := f a s1 in (r, s2, l1 ++ l2)).
+  Proof. intros H. unfold bind. rewrite H. reflexivity. Qed.
+
+  Lemma bind_of_err {A B} (m : M A) (f : A -> M B) s c ee s1 l1 :
+    m s = (Err c ee, s1, l1) -> bind S m f s = (Err c ee, s1, l1).
+  Proof. intros H. unfold bind. now rewrite H. Qed.
+
+  Lemma pick_assoc {A} (k : value) (onhit : expr -> A) (onmiss : A) tbl :
+    pick k onhit onmiss tbl = match assoc_v k tbl with Some b => onhit b | None => onmiss end.
+  Proof.
+    unfold pick, assoc_v. induction tbl as [|[v b] tbl IH]; [reflexivity|].
+    destruct (value_eq k v); [reflexivity|exact IH].
+  Qed.
 End Generic.
